@@ -31,7 +31,7 @@ PROP = "C13"
 def run(ctx):
     repo = ctx.repo
     res = Result(PROP)
-    res.rules = ["B-SIGN", "B-ORDER", "B-EDGE", "B-FACE", "B-HODGE", "K1", "K2", "K5"]
+    res.rules = ["B-SIGN", "B-ORDER", "B-EDGE", "B-FACE", "B-HODGE", "B-ORIENT", "K1", "K2", "K5"]
     res.explanation = (
         "Narrow claim: the sign exponent of the boundary matrix is extracted from the source by def-use and evaluated in the "
         "parity domain (16 abstract states); the ordering that fixes the reference orientation must be unique and precede "
@@ -47,6 +47,7 @@ def run(ctx):
     check_edge_branch(repo, res, bm)
     check_hodge(repo, res, mi.functions["hodge_laplacian"])
     check_subfaces_order(repo, res)
+    check_orientation_map(repo, res, [bm, mi.functions["hodge_laplacian"]])
     # addressing: simplex IDs vs positions (an ID->row map or the orientations dict indexed with a position puts the
     # entries of a face into another simplex's row whenever IDs are not 0..m-1 in insertion order)
     from .kind_rules import functions_of, run_kinds
@@ -511,3 +512,49 @@ def check_subfaces_order(repo, res):
     res.inst("B-FACE", "_subfaces(all=False) yields combinations(simplex, size - 1) of the simplex in the given order", ok)
     if not ok:
         res.add(mk_finding(PROP, "B-FACE", f, f.node, "_subfaces(all=False) no longer yields the codimension-1 faces as combinations(simplex, size - 1) in the order of the (sorted) simplex; the sign function of boundary_matrix assumes the i-th face omits vertex order - i", role="_subfaces"))
+
+
+def check_orientation_map(repo, res, fns):
+    """B-ORIENT: B_k and B_{k+1} are built by separate calls of boundary_matrix and agree on the orientation of a shared
+    simplex only because both read the same map: the caller's `orientations`, or the default that gives every simplex
+    of the edge view orientation 0.  The map is keyed by simplex IDs; it is never rebuilt per order, merged with entries
+    keyed by something else (node labels share the key space of integer simplex IDs), updated or stored into."""
+    n = 0
+    for fn in fns:
+        if "orientations" not in fn.all_params:
+            raise AnalysisError(f"{fn.qualname}: parameter `orientations` not found (anchor vanished)")
+
+        def default_fill(v):
+            if isinstance(v, ast.DictComp) and len(v.generators) == 1:
+                g = v.generators[0]
+                over_edges = any(isinstance(x, ast.Attribute) and x.attr == "edges" for x in ast.walk(g.iter))
+                return over_edges and isinstance(g.target, ast.Name) and isinstance(v.key, ast.Name) and v.key.id == g.target.id and isinstance(v.value, ast.Constant)
+            if isinstance(v, ast.Name) and v.id == "orientations":
+                return True
+            if isinstance(v, ast.IfExp):
+                return default_fill(v.body) and default_fill(v.orelse)
+            if isinstance(v, ast.Call) and getattr(v.func, "id", None) == "dict" and len(v.args) == 1 and not v.keywords:
+                return default_fill(v.args[0])
+            return False
+
+        for st in ast.walk(fn.node):
+            bad = None
+            if isinstance(st, ast.Assign) and any(isinstance(t, ast.Name) and t.id == "orientations" for t in st.targets):
+                n += 1
+                if not default_fill(st.value):
+                    bad = st
+            elif isinstance(st, (ast.Assign, ast.AugAssign)) and any(isinstance(x, ast.Subscript) and isinstance(x.ctx, ast.Store) and isinstance(x.value, ast.Name) and x.value.id == "orientations" for t in (st.targets if isinstance(st, ast.Assign) else [st.target]) for x in ast.walk(t)):
+                n += 1
+                bad = st
+            elif isinstance(st, ast.AugAssign) and isinstance(st.target, ast.Name) and st.target.id == "orientations":
+                n += 1
+                bad = st
+            elif isinstance(st, ast.Expr) and isinstance(st.value, ast.Call) and isinstance(st.value.func, ast.Attribute) and isinstance(st.value.func.value, ast.Name) and st.value.func.value.id == "orientations" and st.value.func.attr in ("update", "setdefault", "pop", "clear", "__setitem__"):
+                n += 1
+                bad = st
+            if bad is not None:
+                res.inst("B-ORIENT", f"{fn.qualname}:{bad.lineno} orientation map left as given / default over the edge view", False)
+                res.add(mk_finding(PROP, "B-ORIENT", fn, bad, f"{fn.qualname}: `{unparse(bad, 70)}` changes the orientation map for this call only (or adds keys that are not simplex IDs); the boundary matrices of neighbouring orders are built by separate calls and then disagree on the orientation of a simplex they share (a node label equal to a simplex ID overrides that simplex), so their product is no longer zero", role="orientations"))
+    res.inst("B-ORIENT", f"{n} bindings / updates of the orientation map examined in boundary_matrix and hodge_laplacian", True)
+    if n < 1:
+        raise AnalysisError("boundary_matrix: the default fill of `orientations` was not found (extractor does not recognise the code)")
